@@ -6,14 +6,15 @@
 id="$1"; prop="$2"; out="$3"; shift 3
 cd /verif
 mkdir -p seeded/$id
-cp $out/patch.diff seeded/$id/patch.diff
-for f in $(cd $out && find . -maxdepth 1 -type f -size -300k ! -name patch.diff ! -perm -u+x -o -maxdepth 1 -type f -name "*.sh" | sed 's#^\./##'); do cp $out/$f seeded/$id/; done
+[ $out -ef seeded/$id ] || cp $out/patch.diff seeded/$id/patch.diff
+for f in $(cd $out && find . -maxdepth 1 -type f -size -300k ! -name patch.diff ! -perm -u+x -o -maxdepth 1 -type f -name "*.sh" | sed 's#^\./##'); do [ $out -ef seeded/$id ] || cp $out/$f seeded/$id/; done
 rm -rf /tmp/seedtrees/$id; mkdir -p /tmp/seedtrees/$id/pristine /tmp/seedtrees/$id/mut
 git -C /repo archive HEAD | tar -x -C /tmp/seedtrees/$id/pristine
 git -C /repo archive HEAD | tar -x -C /tmp/seedtrees/$id/mut
 cp /repo/libTMCG_config.h /tmp/seedtrees/$id/pristine/; cp /repo/libTMCG_config.h /tmp/seedtrees/$id/mut/
 ( cd /tmp/seedtrees/$id/mut && patch -p1 -s < /verif/seeded/$id/patch.diff ) || { echo "SEEDED $id: patch does not apply"; exit 3; }
 demo_p="n/a"; demo_m="n/a"
+mkdir -p /tmp/agent_$(echo ${id#S-} | cut -d- -f1)
 if [ -f seeded/$id/build.sh ]; then
   ( cd seeded/$id && bash ./build.sh /tmp/seedtrees/$id/pristine /tmp/seedtrees/$id/bd_p > /tmp/seedtrees/$id/build_p.log 2>&1 )
   ( cd seeded/$id && bash ./build.sh /tmp/seedtrees/$id/mut /tmp/seedtrees/$id/bd_m > /tmp/seedtrees/$id/build_m.log 2>&1 )
@@ -23,7 +24,7 @@ if [ -f seeded/$id/build.sh ]; then
     ( timeout 600 $dm > /tmp/seedtrees/$id/run_m.log 2>&1 ); demo_m=$?
   elif [ -f seeded/$id/run.sh ]; then
     # the agent's own runner: builds against the tree given as $1 and runs the demonstration
-    ( cd seeded/$id && mkdir -p /tmp/agent_${id#S-} && timeout 900 sh ./run.sh /tmp/seedtrees/$id/pristine > /tmp/seedtrees/$id/run_p.log 2>&1 ); demo_p=$?
+    ( cd seeded/$id && mkdir -p /tmp/agent_$(echo ${id#S-} | cut -d- -f1) && timeout 900 sh ./run.sh /tmp/seedtrees/$id/pristine > /tmp/seedtrees/$id/run_p.log 2>&1 ); demo_p=$?
     ( cd seeded/$id && timeout 900 sh ./run.sh /tmp/seedtrees/$id/mut > /tmp/seedtrees/$id/run_m.log 2>&1 ); demo_m=$?
   fi
 fi
